@@ -506,3 +506,14 @@ def cparams(f):
     (a renamed parameter does not change the terms), else the names in the source"""
     from ..sim import _canon_params
     return _canon_params(f) or f.params()
+
+
+def str_given(text, name):
+    """Is the atom `text` a test of whether the string `name` is non-empty?  True / False = the polarity (the atom being true means
+    non-empty / empty), None = it is some other atom.  The spellings are equivalent for a str: `s`, `s != ''`, `len(s) > 0`, `len(s) != 0`, `bool(s)`."""
+    n = re.escape(name)
+    if re.match(r"^(?:bool\()?%s\)?$" % n, text) or re.match(r"^(?:0 < len\(%s\)|len\(%s\) (?:>|!=) 0|1 <= len\(%s\)|len\(%s\))$" % (n, n, n, n), text):
+        return True
+    if re.match(r"^(?:'' == %s|%s == ''|0 == len\(%s\)|len\(%s\) (?:==|<) (?:0|1)|len\(%s\) <= 0|not %s)$" % (n, n, n, n, n, n), text):
+        return False
+    return None
